@@ -82,6 +82,7 @@ class LifecycleMonitor(Monitor):
         self.completed_at = {}  # vid -> matched size when first seen complete after having been sent
         self.inflight = {}  # vid -> number of packages containing it that are undelivered/unanswered
         self.inflight_mod = {}  # vid -> kinds of cancel/update/replace packages handed over and not answered yet
+        self.exec_pkgs = {}  # thread id -> stack of packages whose execution handler is running on that thread
         self.orders = {}
         self.pending_req = None
         self.removed_exempt = set()
@@ -104,6 +105,13 @@ class LifecycleMonitor(Monitor):
             self.res.probes["c03.transition.%s->%s" % (p, n)] += 1
         if n == "EXECUTION_COMPLETE" and vid not in self.completed_at and "PENDING" in self.log[vid]:
             self.completed_at[vid] = order.size_matched
+        import threading
+
+        cur = self.exec_pkgs.get(threading.get_ident())
+        if cur and p in ("CANCELLING", "UPDATING", "REPLACING") and n != p and all(order is not o for o in cur[-1]._orders):
+            # the reply to a package is being applied on this thread, and it changes the state of an order that is NOT in
+            # that package while that order's own request is outstanding
+            self.violate(self.P, "C03.one-in-flight", "in-flight-order-released-by-the-reply-to-another-package:%s->%s" % (p, n), order=vid, package=cur[-1].package_type.name, package_orders=[o._vid for o in cur[-1]._orders], status_log=[s.name for s in order.status_log][-6:])
         if p == "UPDATING" and n != "UPDATING" and getattr(getattr(order, "EXCHANGE", None), "name", "") == "BETDAQ" and "UPDATE" in self.inflight_mod.get(vid, []):
             # Betdaq by design: an update is answered by the polling (new sequence number), not by the call's reply
             self.inflight_mod[vid].remove("UPDATE")
@@ -176,7 +184,17 @@ class LifecycleMonitor(Monitor):
             if n > 1 and not self.live:
                 self.violate(self.P, "C03.one-in-flight", "two-packages-outstanding:%s" % pkg.package_type.name, order=o._vid, outstanding=n)
 
+    def on_exec_before(self, pkg):
+        import threading
+
+        self.exec_pkgs.setdefault(threading.get_ident(), []).append(pkg)
+
     def on_exec_after(self, pkg):
+        import threading
+
+        st = self.exec_pkgs.get(threading.get_ident())
+        if st:
+            st.pop()
         seen = self.__dict__.setdefault("_retries", {})
         if getattr(pkg, "_retry_count", 0) > seen.get(id(pkg), 0):
             seen[id(pkg)] = pkg._retry_count
@@ -212,6 +230,8 @@ class AccountingMonitor(Monitor):
         self.pre = None
         self.placed_trades = {}  # (strategy, lookup) -> ordered set of trade ids charged through an executed placement/adoption
         self.own_last_place = {}  # (strategy, lookup) -> simulated ms of the latest accepted, executed placement
+        self._refusal_msg = None
+        self.ctx_stamps = {}  # id(runner context) -> {"place": ms, "reset": ms} own clock at flumine's stamping calls
         self.own_last_done = {}  # (strategy, lookup) -> simulated ms at which the last live order of a placed trade completed (never later than the trade's completion)
         self.in_exec = 0
 
@@ -232,8 +252,33 @@ class AccountingMonitor(Monitor):
     def _ctx(self, strategy, lookup):
         return strategy._invested.get(lookup)
 
+    # own clock readings at the instants flumine stamps a runner (placement / completed trade): the reference for "has the
+    # cool-down elapsed", independent of how the runner context computes its elapsed seconds
+    def on_ctx_place(self, ctx):
+        self.ctx_stamps.setdefault(id(ctx), {})["place"] = self.run.now_ms
+
+    def on_ctx_reset(self, ctx):
+        self.ctx_stamps.setdefault(id(ctx), {})["reset"] = self.run.now_ms
+
+    def _refused_by_cooldown(self, order):
+        """A placement refused with the cool-down as the stated reason although the cool-down has elapsed (own clock)."""
+        msg = self._refusal_msg or ""  # the reason given at THIS refusal (order.violation_msg may stem from an earlier one)
+        strategy = order.trade.strategy
+        ctx = self._ctx(strategy, order.lookup)
+        st = self.ctx_stamps.get(id(ctx)) if ctx is not None else None
+        if not st:
+            return
+        slack = 0.002 if self.run.scenario.get("world") == "B" else 0.0
+        for word, key, limit in (("placed_elapsed_seconds", "place", order.trade.place_reset_seconds), ("reset_elapsed_seconds", "reset", order.trade.reset_seconds)):
+            if word in msg and key in st and limit:
+                el = (self.run.now_ms - st[key]) / 1000.0
+                self.res.probes["c10.refusal_by_cooldown_checked_against_own_clock"] += 1
+                if el >= limit + slack + 1e-9:
+                    self.violate(self.P, "C10.not-locked", "refused-by-a-cool-down-that-has-elapsed:%s" % word, elapsed=el, cool_down=limit, message=msg[:160])
+
     def on_request_before(self, kind, txn, order, a, k):
         self.pre = None
+        self._refusal_msg = None
         if kind != "PLACE":
             return
         execute = a[1] if len(a) > 1 else k.get("execute", True)
@@ -254,6 +299,8 @@ class AccountingMonitor(Monitor):
 
     def on_request_after(self, kind, txn, order, a, k, res, exc):
         pre, self.pre = self.pre, None
+        if pre is not None and exc is None and res is False and not pre["force"]:
+            self._refused_by_cooldown(order)
         if pre is None or exc is not None or not res:
             return
         strategy = order.trade.strategy
@@ -310,6 +357,7 @@ class AccountingMonitor(Monitor):
                 pr["c10.limit_bound"] += 1
 
     def on_control_error(self, control, order, error):
+        self._refusal_msg = str(error)
         if control.NAME == "STRATEGY_EXPOSURE" and "validate_order" in str(error):
             self.res.nontrivial = True
             self.res.probes["c10.refused_by_validate_order"] += 1
